@@ -9,7 +9,7 @@ LEVEL = 'proof'
 def run(rep):
     compilerp.strict_parsing_obligations(rep)
     q = rep.tier == 'quick'
-    fw.standin(rep, 'recog.py', ['run', 'accept', rep.seed, 4000 if q else 60000],
+    fw.standin(rep, 'recog.py', ['run', 'accept', rep.seed, 12000 if q else 80000],
                'independent recogniser of L(prolog.g4) (Earley + descent, no ANTLR) vs the real compiler on grammar-derived programs and every '
                'single-edit corruption; accepted programs must define exactly the clause heads',
                'valid programs x corruptions (token deletion/insertion/duplication/swap, truncation, foreign characters, unterminated quote, trailing garbage)')
